@@ -158,8 +158,9 @@ def to_polars(t, lazy: bool = False):
 NUMERIC = ("key", "int", "float", "nn")
 ROW_FNS_2 = ["+", "-", "*"]
 WINDOW_AGG = ["sum", "min", "max", "mean", "count", "size"]
-WINDOW_ORD = ["cumsum", "cummax", "cummin", "_row_number", "shift", "first", "last", "ffill", "bfill", "rank"]
-PROJECT_AGG = ["sum", "min", "max", "mean", "count", "size", "median"]
+WINDOW_ORD = ["cumsum", "cummax", "cummin", "_row_number", "shift", "first", "last", "ffill", "bfill", "rank", "cumprod",
+              "cumcount", "_count"]
+PROJECT_AGG = ["sum", "min", "max", "mean", "count", "size", "median", "nunique"]
 
 
 def _fresh(cols: Dict[str, str], base: str) -> str:
@@ -190,7 +191,8 @@ def gen_steps(r, cols: Dict[str, str], tables: Dict[str, Dict[str, str]], max_st
         strs = [c for c in names if cols[c] == "str"]
         if kind == "extend" and nums:
             new = _fresh(cols, r.choice(["z", "y", "v"]))
-            form = r.choice(["arith", "arith", "ifelse", "isnull", "coalesce", "maxmin", "abs", "neg", "const", "round"])
+            form = r.choice(["arith", "arith", "ifelse", "isnull", "coalesce", "maxmin", "abs", "neg", "const", "round",
+                             "rowfn", "isin", "where", "strfn"])
             a = r.choice(nums)
             b = r.choice(nums)
             k = "float" if "float" in (cols[a], cols[b]) else "int"
@@ -219,6 +221,45 @@ def gen_steps(r, cols: Dict[str, str], tables: Dict[str, Dict[str, str]], max_st
             elif form == "round":
                 expr = f"{a}.floor()" if r.random() < 0.5 else f"{a}.ceil()"
                 outk = "float"
+            elif form == "rowfn":
+                # row-wise functions: whatever they return for a value, they return it for that value in any row order
+                fn1 = r.choice(["sign", "exp", "sqrt_abs", "log1p_abs", "fmax", "fmin", "is_bad", "coalesce_0", "round"])
+                if fn1 == "sqrt_abs":
+                    expr = f"{a}.abs().sqrt()"
+                elif fn1 == "log1p_abs":
+                    expr = f"{a}.abs().log1p()"
+                elif fn1 in ("fmax", "fmin"):
+                    expr = f"{a}.{fn1}({b})"
+                elif fn1 == "is_bad":
+                    expr = f"({a}.is_bad()).if_else(1, 0)"
+                elif fn1 == "exp":
+                    expr = f"({a} / 8).exp()"
+                else:
+                    expr = f"{a}.{fn1}()"
+                outk = "float"
+            elif form == "isin":
+                expr = f"({a}.is_in([{r.randrange(0, 5)}, {r.randrange(5, 12)}])).if_else({b}, {r.randrange(0, 3)})"
+                outk = k
+            elif form == "where":
+                expr = f"({a} > {r.randrange(0, 8)}).where({b}, {r.randrange(0, 3)})"
+                outk = k
+            elif form == "strfn" and strs:
+                sc = r.choice(strs)
+                fn1 = r.choice(["concat", "mapv", "as_str"])
+                if fn1 == "concat":
+                    expr = f"{sc}.concat({r.choice(strs)})"
+                    new_kind = "str"
+                elif fn1 == "mapv":
+                    expr = f"{sc}.mapv({{'u': 1, 'v': 2, 'a': 3}}, 0)"
+                    new_kind = "nn"
+                else:
+                    expr = f"{a}.coalesce(0).as_int64()"
+                    new_kind = "nn"
+                steps.append({"t": "extend", "ops": {new: expr}})
+                cols[new] = "snull" if new_kind == "str" else new_kind
+                continue
+            elif form == "strfn":
+                continue
             else:
                 expr = str(r.randrange(0, 5))
                 outk = "nn"
@@ -259,6 +300,8 @@ def gen_steps(r, cols: Dict[str, str], tables: Dict[str, Dict[str, str]], max_st
             v = r.choice(nums)
             if fn == "_row_number":
                 expr = "_row_number()"
+            elif fn == "_count":
+                expr = "_count()"
             elif fn == "cumsum" and r.random() < 0.2:
                 expr = "(1).cumsum()"
             elif fn == "shift":
@@ -267,7 +310,7 @@ def gen_steps(r, cols: Dict[str, str], tables: Dict[str, Dict[str, str]], max_st
                 expr = f"{v}.{fn}()"
             st = {"t": "extend", "ops": {new: expr}, "partition_by": part, "order_by": order, "reverse": rev}
             steps.append(st)
-            cols[new] = "nn" if fn in ("_row_number", "rank") else ("float" if cols[v] == "float" else "int")
+            cols[new] = "nn" if fn in ("_row_number", "rank", "_count", "cumcount") else ("float" if cols[v] == "float" else "int")
             if fn in ("_row_number",):
                 cols[new] = "nn"
         elif kind == "project" and nums and groups and depth < 2:
@@ -283,7 +326,7 @@ def gen_steps(r, cols: Dict[str, str], tables: Dict[str, Dict[str, str]], max_st
                 else:
                     v = r.choice(nums)
                     ops[new] = f"{v}.{fn}()"
-                    newcols[new] = "nn" if fn == "count" else "float"
+                    newcols[new] = "nn" if fn in ("count", "nunique") else "float"
             steps.append({"t": "project", "ops": ops, "group_by": by})
             cols = newcols
         elif kind == "select_rows" and names:
@@ -447,8 +490,9 @@ def gen_steps(r, cols: Dict[str, str], tables: Dict[str, Dict[str, str]], max_st
                 steps.append({"t": "select_columns", "cols": common})
             # when the other table has exactly these columns it enters the concat as a bare table leaf
             bsteps = [] if sorted(rcols0) == sorted(common) else [{"t": "select_columns", "cols": common}]
-            if r.random() < 0.25:
-                bsteps = bsteps + [{"t": "select_rows", "expr": "id < 0"}]  # a side that evaluates to no rows
+            numc = [c for c in common if rcols0[c] in ("key", "int", "float")]
+            if numc and r.random() < 0.25:
+                bsteps = bsteps + [{"t": "select_rows", "expr": f"{numc[0]} < -1000"}]  # a side that evaluates to no rows
             steps.append({"t": "concat_rows", "b": {"src": tn, "steps": bsteps}, "id_column": idc})
             cols = {c: ("int" if cols[c] == "key" else cols[c]) for c in common}
             if idc:
